@@ -135,6 +135,15 @@ v("b50-doc-setter-local", ["C05", "C10"], "handle bound to a local before the si
   (J, "        self.document.reset(new_doc)", "        doc = self.document\n        doc.reset(new_doc)"))
 
 
+v("b51-cache-size-logging", ["C08", "C02", "C03"], "cache size used in a log message only",
+  (P, "            statepoint = self._get_statepoint_from_workspace(job_id, validate)\n            # Update the project's state point cache from this cache miss",
+      "            statepoint = self._get_statepoint_from_workspace(job_id, validate)\n            logger.debug(f\"cache miss; {len(self._sp_cache)} entries cached\")\n            # Update the project's state point cache from this cache miss"))
+v("b52-docsync-none-order", ["C14", "C13"], "equivalent None test written the other way round",
+  (S, "    # The doc_sync functions defaults to a safe \"by_key\" strategy.\n    if doc_sync is None:\n        doc_sync = DocSync.ByKey()", "    # The doc_sync functions defaults to a safe \"by_key\" strategy.\n    if None is doc_sync:\n        doc_sync = DocSync.ByKey()"))
+v("b53-repair-jobids-else", ["C09"], "None test with explicit else",
+  (P, "        if job_ids is None:\n            job_ids = self._find_job_ids()\n\n        # Load internal cache", "        if job_ids is not None:\n            job_ids = list(job_ids)\n        else:\n            job_ids = self._find_job_ids()\n\n        # Load internal cache"))
+
+
 def main():
     os.makedirs(OUT, exist_ok=True)
     for f in os.listdir(OUT):
